@@ -459,3 +459,8 @@ def run(ctx):
              "dropping it")
     from rules import round5
     round5.check_payload_add_tiny(ctx, "R1.10")
+    ctx.rule("R1.11", "the bytes on disk are the documented ones: the record layouts of the stream header, the event "
+             "header (12 bytes: flags, model, category, value, 8-byte clock), the event and the jumbo payload, and the "
+             "value of the jumbo flag (0x10), as clang lays them out, equal doc/user/runtime/trace_spec.md")
+    from rules import round6
+    round6.check_wire_layout(ctx, "R1.11")
